@@ -48,6 +48,22 @@ OVL_CFG = {
                r'std::operator==\|.*nullptr_t\).*': {'c': 'UPTR_IS_NULL', 'by_value': True}},
 }
 OVL_ROOTS = ['overload_pred::result']
+STRT = r'(const )?(std::basic_string<char.*>|std::string|std::__cxx11::basic_string<char.*>)'
+BS = r'std::(__cxx11::)?basic_string<char.*>'
+STRW_CFG = {
+    'names': {'pred_find_str::result': 'w_find_str', 'pred_starts_str::result': 'w_starts_str', 'pred_ends_str::result': 'w_ends_str',
+              'value_str::get_string|std::string &()': 'value_str_get', 'value_str::get_string|const std::string &() const': 'value_str_get_const'},
+    'types': {STRT: 'verif_str', r'std::(__cxx11::)?basic_string<char.*>::size_type|std::string::size_type': 'size_t'},
+    'types_are_records': {STRT: True},
+    'record_ctypes': ['verif_str'],
+    'types_prelude': '#include "../c09/str_model.h"\n',
+    'globals': {r'std::basic_string<char>::npos': 'STR_NPOS', r'std::__cxx11::basic_string<char>::npos': 'STR_NPOS',
+                r'std::__cxx11::basic_string<char, std::char_traits<char>, std::allocator<char>>::npos': 'STR_NPOS'},
+    'extern': {BS + r'::size': 'STR_SIZE', BS + r'::length': 'STR_SIZE',
+               BS + r'::compare\|.*\(.*size_type, .*size_type, const .*basic_string<.*': 'str_compare_sub',
+               BS + r'::find\|.*\(const .*basic_string<.*': 'str_find', BS + r'::rfind\|.*\(const .*basic_string<.*': 'str_rfind'},
+}
+STRW_ROOTS = ['pred_find_str::result', 'pred_starts_str::result', 'pred_ends_str::result']
 INPUTS = ['in_n']
 
 
@@ -65,6 +81,11 @@ def jobs(tier):
     J.append(Job('overload_pred_result', [os.path.join(HERE, 'ovl_harness.c'), os.path.join(OUT, 'ovl_bodies.c')], 'h_overload_pred',
                  enforce='overload_pred_result', includes=inc, timeout=300, inputs=['g_has_overload', 'g_ovl_verdict'],
                  note='overload_pred::result (overload.cc): no overload => fail; lookup and the selected predicate by a model'))
+    n = 3 if tier == 'quick' else 4
+    J.append(Job('bounded_string_words_len%d' % n, [os.path.join(HERE, 'strw_harness.c'), os.path.join(OUT, 'strw_bodies.c')],
+                 'hb_string_words', includes=inc, defines=['STR_N=%d' % n], kind='bounded', unwind=n + 3, timeout=1200,
+                 cbmc_args=['--object-bits', '10'], inputs=['hn', 'nn', 'sh[*', 'sn[*'],
+                 note='bounded: haystack and needle of length <= %d over all 256 byte values; std::string by a model' % n))
     add('control', 'h_push', 'stack_push', defines=['VERIF_CONTROL'], kind='control', expect='fail',
         note='same enforcement as push with one deliberately false ensures clause')
     return J
@@ -76,7 +97,8 @@ ASSUMPTIONS = [
     'value type codes are 1..127 (value_type::alloc hands them out consecutively; ~20 exist)',
     'stack depth <= 4096 slots (keeps pointer arithmetic in one object); drop(n) checked for n <= 4',
     'overload_pred::result: overload lookup (find_pred) and the selected predicate are modelled (props/c11/ovl_model.h); the diagnostic show_error is dropped',
-    'SLICE: overload lookup (find_selector), operand collection and every word implementation are NOT covered',
+    '?find/?starts/?ends on strings (bounded job): std::string by props/c09/str_model.h (size, compare(pos,n,str), find, rfind)',
+    'SLICE: overload lookup (find_selector), operand collection and the other word implementations (sequences, integers, match, elem, add, length, value, radix words, shuffling) are NOT covered',
 ]
 EXPLANATION = 'Profile invariant of the value stack; see DESIGN.md section 4 C11.'
 
@@ -88,6 +110,8 @@ def spec_files():
 def prepare(tier):
     lw = vlib.extract('stack', 'libzwerg/stack.cc', CFG, ROOTS, OUT)
     ow = vlib.extract('ovl', 'libzwerg/overload.cc', OVL_CFG, OVL_ROOTS, OUT)
+    sw = vlib.extract('strw', 'libzwerg/value-str.cc', STRW_CFG, STRW_ROOTS, OUT)
+    lw.report['functions'] += sw.report['functions']
     lw.report['functions'] += ow.report['functions']
     lw.report['dropped'] += ow.report['dropped']
     return {'unit': 'libzwerg/stack.hh (via stack.cc)', 'functions': lw.report['functions'], 'externals': lw.report['externals'],
@@ -102,7 +126,29 @@ def replay_overload():
             'expected': 'an assertion word on operand types it has no overload for holds in neither polarity'}
 
 
+def replay_string_words(r):
+    def num(x):
+        t = str(x)
+        neg = t.strip().startswith('-')
+        v = int(''.join(ch for ch in t if ch.isdigit()) or 0)
+        return (-v if neg else v) & 255
+    def lit(prefix, n):
+        bs = bytes(num(r.cex.get('%s[%dl]' % (prefix, i), 0)) for i in range(n))
+        return bs, '"' + ''.join('\\x%02x' % b for b in bs) + '"'
+    hn = int(''.join(ch for ch in str(r.cex.get('hn', 0)) if ch.isdigit()) or 0)
+    nn = int(''.join(ch for ch in str(r.cex.get('nn', 0)) if ch.isdigit()) or 0)
+    (hb, hl), (nb, nl) = lit('sh', hn), lit('sn', nn)
+    qs = ['%s %s ?find' % (hl, nl), '%s %s ?starts' % (hl, nl), '%s %s ?ends' % (hl, nl)]
+    res = vlib.zw_queries(qs, OUT)
+    got = [bool(c) for c, _ in res]
+    exp = [nb in hb, hb.startswith(nb), hb.endswith(nb)]
+    return {'reproduced': got != exp, 'haystack': list(hb), 'needle': list(nb), 'queries': qs,
+            'real_library_find_starts_ends': got, 'expected': exp}
+
+
 def replay(r):
+    if r.job.name.startswith('bounded_string_words'):
+        return replay_string_words(r)
     if r.job.name == 'overload_pred_result':
         return replay_overload()
     return replay_profile(r)
